@@ -9,6 +9,10 @@ p = [json.loads(l) for l in open('/verif/properties.jsonl') if json.loads(l)['id
 extra = ""
 if variant == "offcentre":
     extra = ("* AVOID the single most obvious place for this property (the main handler or the central helper everyone would look at first). Pick a LESS CENTRAL code path through which the property can still be broken: an admin / configuration path, one of the third-party venue integrations (Kamino / Drift / Solend handlers and mocks), a rarely used instruction variant or flag combination, a cache / bookkeeping field that another instruction later trusts, an account-constraint in an Accounts struct, or a small helper several callers share.\n ")
+if variant == "cooperating":
+    extra = ("* The change MUST consist of TWO (or three) cooperating edits at DIFFERENT sites (different functions, preferably different files) that each look harmless or even like an improvement when reviewed alone — e.g. a helper's contract is subtly changed and one caller is 'adapted' while another is not; a check is moved from a callee into only some of its callers; a value is now pre-scaled / pre-rounded / pre-negated at the producer but still scaled / rounded / negated at one consumer; a cached field is now refreshed lazily and one reader was not updated; a guard is weakened in one place because 'the other place already checks it' while that other check is also narrowed. Neither edit alone may break the property (or, alone, it would be caught immediately by the existing tests).\n ")
+if variant == "sequence":
+    extra = ("* The breakage MUST need a specific MULTI-STEP HISTORY to manifest: state written by one instruction (a flag, counter, timestamp, cache field, share value, emissions / fee bucket, liquidation record, position slot) is later trusted by a different instruction, and only the combination misbehaves — e.g. the second of two operations in the same slot/second, an operation right after a position was closed and its slot reused, an admin reconfiguration between two user actions, an accrual with zero elapsed time, a bank that was emptied and refilled, an account that was transferred / disabled / frozen earlier. A single instruction on fresh state must still behave correctly. Your demonstration should replay that history against the real functions.\n ")
 print(f"""You are working alone in a scratch git worktree of the mrgnlabs/marginfi-v2 repository (a Solana/Anchor on-chain lending protocol written in Rust) at {wt}. The sandbox has NO network: build with `--offline`; the repository pins Rust 1.79 (rust-toolchain.toml). A warm `target/` directory has already been copied into the worktree so builds are incremental. Work ONLY inside {wt} (and /tmp scratch space); never touch /repo, never read or write anything under /verif or /root/.claude.
 
 THE PROPERTY (it holds, or is intended to hold, on the current code):
